@@ -167,7 +167,7 @@ macro_rules! mixed_muldiv {
     }};
 }
 
-#[cfg(feature = "fl")]
+#[cfg(any(feature = "fl", feature = "fl-noauto"))]
 macro_rules! mixed_float_only {
     ($cx:ident, $V:ty, $m:ident :: $Q:ident, $ma:ident :: $Qa:ident, $mb:ident :: $Qb:ident, $Ul:ident, $ul:expr, $Ur:ident, $ur:expr, $Ub:ident, $ub:expr) => {{
         if $cx.take() {
@@ -182,11 +182,15 @@ macro_rules! mixed_float_only {
             let lpb = join_enc(&base_pows::<Db, $Ul<$V>, $V>());
             let rpb = join_enc(&base_pows::<Db, $Ub<$V>, $V>());
             let mut rng = $cx.rng(concat!(stringify!($V), "mad", stringify!($m), $ul, $ur, $ub));
-            for (a, b) in pairs::<$V>(&mut rng, $cx.n) {
-                let x = <$V as Val>::gen(&mut rng, 20);
-                let r: Option<$V> = g(|| { let r: B2<$Ul<$V>, $V, Db> = q!(X, x).mul_add(q!(A, a), q!(B, b)); r.value });
-                writeln!($cx.out, "mad {} {} {} {} {} {} {} {} {} {} {} {} {}", <$V as Val>::NAME, stringify!($m), $ul, $ur, $ub,
-                    lpa, rpa, lpb, rpb, x.enc(), a.enc(), b.enc(), enc_opt(&r)).unwrap();
+            for (i, (a, b)) in pairs::<$V>(&mut rng, $cx.n).into_iter().enumerate() {
+                // every generator class for `x`; and, for each case, the cancelling addend −(x·a): there a
+                // fused multiply-add returns the rounding error of the product, an unfused one returns 0
+                let x = <$V as Val>::gen(&mut rng, i);
+                for b in [b, -(x * a)] {
+                    let r: Option<$V> = g(|| { let r: B2<$Ul<$V>, $V, Db> = q!(X, x).mul_add(q!(A, a), q!(B, b)); r.value });
+                    writeln!($cx.out, "mad {} {} {} {} {} {} {} {} {} {} {} {} {}", <$V as Val>::NAME, stringify!($m), $ul, $ur, $ub,
+                        lpa, rpa, lpb, rpb, x.enc(), a.enc(), b.enc(), enc_opt(&r)).unwrap();
+                }
             }
             // hypot between two X in different base units
             type Xr = uom::si::$m::$Q<$Ur<$V>, $V>;
@@ -256,7 +260,7 @@ macro_rules! mixed_all {
     };
 }
 
-#[cfg(feature = "fl")]
+#[cfg(any(feature = "fl", feature = "fl-noauto"))]
 macro_rules! mixed_float_all {
     ($cx:ident, $V:ty, $Ul:ident, $ul:expr, $Ur:ident, $ur:expr, $Ub:ident, $ub:expr) => {
         mixed_float_only!($cx, $V, length::Length, length::Length, area::Area, $Ul, $ul, $Ur, $ur, $Ub, $ub);
@@ -321,6 +325,16 @@ fn same_f64<W: Write>(cx: &mut Cx<W>) {
 fn same_f32<W: Write>(cx: &mut Cx<W>) {
     same_pairs!(mixed_all, cx, f32);
 }
+/// `mul_add` and `hypot` (std only) between operands sharing base units: compiles with and without autoconvert
+#[cfg(any(feature = "fl", feature = "fl-noauto"))]
+fn same_float<W: Write>(cx: &mut Cx<W>) {
+    mixed_float_all!(cx, f64, Si, "si", Si, "si", Si, "si");
+    mixed_float_all!(cx, f64, Cgs, "cgs", Cgs, "cgs", Cgs, "cgs");
+    mixed_float_all!(cx, f32, Kgh, "kgh", Kgh, "kgh", Kgh, "kgh");
+    mixed_float_all!(cx, f32, Fpm, "fpm", Fpm, "fpm", Fpm, "fpm");
+}
+#[cfg(not(any(feature = "fl", feature = "fl-noauto")))]
+fn same_float<W: Write>(_cx: &mut Cx<W>) {}
 
 fn main() {
     silence_panics();
@@ -337,6 +351,9 @@ fn main() {
     if all || which == "same" {
         same_f64(&mut cx);
         same_f32(&mut cx);
+    }
+    if all || which == "samefloat" {
+        same_float(&mut cx);
     }
     #[cfg(any(feature = "fl", feature = "fl-nostd"))]
     if all || which == "mixed" {
